@@ -355,6 +355,69 @@ def run_receiver(c, stream):
     return obs, left, conn.rtrace, sane
 
 
+def probe_badlen(c):
+    """a real pipe / socket pair: a message longer than recv_bytes(maxlength) allows.  Afterwards the
+    receiving end refuses further receives BEFORE any I/O: a one-way reader is closed (and says so), a
+    duplex end is no longer readable; nothing addressed to another descriptor is ever delivered by it"""
+    import billiard.connection as bc
+    duplex = bool(c.get('duplex'))
+    r, w = bc.Pipe(duplex=duplex)
+    out = dict(ok=True, err=None, duplex=duplex)
+    try:
+        w.send_bytes(b'x' * c.get('n', 100))
+        try:
+            r.recv_bytes(c.get('maxlength', 10))
+            out.update(ok=False, err='an over-limit message was delivered')
+            return out
+        except OSError as exc:
+            out['first'] = str(exc)
+        out['closed'] = bool(r.closed)
+        out['readable'] = bool(r._readable)
+        # a new descriptor that may reuse the number the dead reader held, with a message of its own
+        r2, w2 = bc.Pipe(duplex=False)
+        w2.send_bytes(b'message for somebody else')
+        import signal
+
+        class _Blocked(Exception):
+            pass
+
+        def _on_alarm(signum, frame):
+            raise _Blocked()
+        prev = signal.signal(signal.SIGALRM, _on_alarm)
+        signal.alarm(3)
+        try:
+            got = r.recv_bytes()
+            out.update(ok=False, err='the connection that refused an over-limit message later delivered %r' % got[:40])
+        except _Blocked:
+            out.update(ok=False, err='the connection that refused an over-limit message later blocks in a read (it did not refuse before any I/O)')
+        except (OSError, EOFError, ValueError) as exc:
+            out['second'] = '%s: %s' % (type(exc).__name__, exc)
+        finally:
+            signal.alarm(0)
+            signal.signal(signal.SIGALRM, prev)
+        if out['ok']:
+            prev = signal.signal(signal.SIGALRM, _on_alarm)
+            signal.alarm(3)
+            try:
+                other = r2.recv_bytes()
+                if other != b'message for somebody else':
+                    out.update(ok=False, err='another pipe lost its message: %r' % other[:40])
+            except _Blocked:
+                out.update(ok=False, err='another pipe never delivers its own message')
+            except Exception as exc:      # noqa
+                out.update(ok=False, err='another pipe could not deliver its own message: %s' % type(exc).__name__)
+            finally:
+                signal.alarm(0)
+                signal.signal(signal.SIGALRM, prev)
+        if out['ok'] and not duplex and not out['closed']:
+            out.update(ok=False, err='a one-way reader that met an over-limit message reports closed=False (readable=%s)' % out['readable'])
+        if out['ok'] and duplex and out['readable']:
+            out.update(ok=False, err='a duplex end that met an over-limit message is still readable')
+    except Exception as exc:      # noqa
+        out.update(ok=False, err='probe raised %s: %s' % (type(exc).__name__, exc))
+    return out
+
+
 def probe_huge(c):
     """a buffer longer than the header can express: must raise before any write()"""
     n = c['n']
@@ -411,6 +474,8 @@ def probe_objects(c):
 
 
 def run_case(c):
+    if c.get('probe') == 'badlen':
+        return probe_badlen(c)
     if c.get('probe') == 'huge':
         return probe_huge(c)
     if c.get('probe') == 'objects':
